@@ -31,16 +31,30 @@ func (a *Num) Cmp(b *Num) int {
 	return a.X.Cmp(&b.X)
 }
 
+// exactContext is used for integer addition, subtraction and multiplication,
+// which must not lose digits: a precision of zero disables rounding in apd.
+var exactContext = internal.BaseContext.WithPrecision(0)
+
+// arithContext returns the decimal context for adding, subtracting or
+// multiplying a and b: exact when both are integers, as integer arithmetic
+// has unlimited precision, and the default precision otherwise.
+func arithContext(a, b *Num) *internal.Context {
+	if a.K&b.K&IntKind != 0 {
+		return &exactContext
+	}
+	return &internal.BaseContext
+}
+
 func (c *OpContext) Add(a, b *Num) Value {
-	return numOp(c, internal.BaseContext.Add, a, b)
+	return numOp(c, arithContext(a, b).Add, a, b)
 }
 
 func (c *OpContext) Sub(a, b *Num) Value {
-	return numOp(c, internal.BaseContext.Sub, a, b)
+	return numOp(c, arithContext(a, b).Sub, a, b)
 }
 
 func (c *OpContext) Mul(a, b *Num) Value {
-	return numOp(c, internal.BaseContext.Mul, a, b)
+	return numOp(c, arithContext(a, b).Mul, a, b)
 }
 
 func (c *OpContext) Quo(a, b *Num) Value {
